@@ -9,12 +9,13 @@ mod sites;
 mod span_sim;
 mod stack;
 mod stack_sim;
+mod wrap_sim;
 
 use fw::{Engine, GenCtx};
 use serde_json::Value;
 use std::io::Read;
 
-static ENGINES: &[&(dyn Engine)] = &[&appender::AppenderEngine, &core_sim::CoreEngine, &registry_sim::RegistryEngine, &span_sim::SpanEngine, &stack_sim::StackEngine];
+static ENGINES: &[&(dyn Engine)] = &[&appender::AppenderEngine, &core_sim::CoreEngine, &registry_sim::RegistryEngine, &span_sim::SpanEngine, &stack_sim::StackEngine, &wrap_sim::WrapEngine];
 
 fn engine_for_prop(prop: &str) -> Option<&'static dyn Engine> {
     ENGINES.iter().copied().find(|e| e.props().contains(&prop))
@@ -33,6 +34,7 @@ fn budget(prop: &str) -> (u64, u64) {
         "C03" => (120_000, 2_500_000),
         "C05" => (120_000, 2_500_000),
         "C07" => (100_000, 2_000_000),
+        "C09" => (120_000, 2_500_000),
         "C06" => (120_000, 2_500_000),
         _ => (40_000, 1_000_000),
     }
